@@ -109,6 +109,19 @@ Section Spec.
     let '(a1, e) := a_maybe_load lf a in if Z.eqb e 0 then fold_left a_upd_visit tr (a1, 0%Z) else (a1, e).
   Definition a_del (lf : bool) (tr : list (N * bool)) (a : astate) : astate * Z :=
     let '(a1, e) := a_maybe_load lf a in if Z.eqb e 0 then fold_left a_del_visit tr (a1, 0%Z) else (a1, e).
+  (* batched path: the items BatchUpdate / BatchDelete reported done (ErrNotExists counts as done) *)
+  Definition a_upd_b (lf : bool) (calls : list (list (N * V) * (nat * N))) (a : astate) : astate * Z :=
+    let '(a1, e) := a_maybe_load lf a in
+    if Z.eqb e 0
+    then (fst (fold_left a_upd_visit (map (fun kv => (fst kv, snd kv, true)) (applied_of (adj_calls V false calls))) (a1, 0%Z)),
+          nerr_of V false calls)
+    else (a1, e).
+  Definition a_del_b (lf : bool) (calls : list (list (N * V) * (nat * N))) (a : astate) : astate * Z :=
+    let '(a1, e) := a_maybe_load lf a in
+    if Z.eqb e 0
+    then (fst (fold_left a_del_visit (map (fun kv => (fst kv, true)) (applied_of (adj_calls V true calls))) (a1, 0%Z)),
+          nerr_of V true calls)
+    else (a1, e).
   Definition a_cstep (a : astate) (o : cop V) : astate * Z :=
     match o with
     | COp o => let DP := a_step (a_D a, a_P a) o in
@@ -120,6 +133,10 @@ Section Spec.
     | CDel lf tr => a_del lf tr a
     | CAll lf trd tru => let '(a1, e1) := a_del lf trd a in let '(a2, e2) := a_upd lf tru a1 in
                          (a2, ((if Z.eqb e1 0 then 0 else 1) + (if Z.eqb e2 0 then 0 else 1))%Z)
+    | CUpdB lf calls => a_upd_b lf calls a
+    | CDelB lf calls => a_del_b lf calls a
+    | CAllB lf cd cu => let '(a1, e1) := a_del_b lf cd a in let '(a2, e2) := a_upd_b lf cu a1 in
+                        (a2, ((if Z.eqb e1 0 then 0 else 1) + (if Z.eqb e2 0 then 0 else 1))%Z)
     end.
   Definition as0 : astate := AS [] [] [] false false.
 
@@ -191,7 +208,7 @@ Definition ok_cache (a : astate N) (e : Z) (o : cop N) (ob : obs) : bool :=
   nodup_keysb (keys (o_real ob)) && map_eqb (o_real ob) (a_R a) && Z.eqb (o_nerr ob) e &&
   (if a_coh a then map_eqb (o_dp ob) (o_real ob) else true) &&
   (match o with
-   | CAll _ _ _ => if a_coh a && Z.eqb (o_nerr ob) 0
+   | CAll _ _ _ | CAllB _ _ _ => if a_coh a && Z.eqb (o_nerr ob) 0
                    then map_eqb (o_real ob) (o_des ob) && Nat.eqb (length (o_pu ob)) 0 && Nat.eqb (length (o_pd ob)) 0
                    else true
    | _ => true
